@@ -54,6 +54,10 @@ var slotTemplates = map[string]string{
 	"attrraw":       "# h {%s}",
 	"attrdatakey":   "# h {data-%s=v}\n\nh {data-a%sb=\"v\" .c}\n---",
 	"attridval":     "# h {id=%s}\n\nh {#b id=%s}\n===",
+	"attrcase":      "# h {.a Class=%s}\n\nt {cLASS=%s .b}\n===\n\n## u {ID=%s #x Id=%s}\n\n### v {CLASS=%s class=%s}",
+	"attridq":       "# h {id=\"%s\"}\n\nh {id='%s'}\n===",
+	"attrclassq":    "## h {class=\"%s\"}\n\nh {.c class=\"%s\" class='%s'}\n---",
+	"attrstyleq":    "# h {style=\"%s\" title='%s' lang=\"%s\" data-x=\"%s\"}",
 	"linkify":       "see %s ok http://a.b/%s www.a.b/%s",
 	"strike":        "~~%s~~",
 	"emph":          "*%s* **%s**",
